@@ -272,14 +272,14 @@ theorem removesBranch_create (o : Opts) (ms : List Bits) (hlen : ms.length ≤ U
 
 theorem classify_line_iff (o : Opts) (fl : Flags) (m : Bits) :
     (classify o fl m = .line ∨ classify o fl m = .both) ↔
-      fl.ignore = true ∨ (hit o.line m.line = true ∧ fl.ignoreBr = false) := by
+      hit o.line m.line = true ∨ fl.ignore = true := by
   unfold classify
   cases fl.ignoreBr <;> cases fl.ignore <;> cases hit o.brLine m.brLine <;>
     cases hit o.line m.line <;> simp
 
 theorem classify_branch_iff (o : Opts) (fl : Flags) (m : Bits) :
     (classify o fl m = .branch ∨ classify o fl m = .both) ↔
-      fl.ignoreBr = true ∨ (hit o.brLine m.brLine = true ∧ fl.ignore = false) := by
+      hit o.brLine m.brLine = true ∨ fl.ignoreBr = true := by
   unfold classify
   cases fl.ignoreBr <;> cases fl.ignore <;> cases hit o.brLine m.brLine <;>
     cases hit o.line m.line <;> simp
@@ -295,27 +295,56 @@ theorem Marks_in (c : Bool) (f : Bits → Bool) (ms : List Bits) (n : Nat) (h1 :
   obtain ⟨k, rfl⟩ : ∃ k, n = k + 1 := ⟨n - 1, by omega⟩
   exact Marks_succ c f ms k (by omega)
 
-/-- the behaviour of the code, line dimension -/
-theorem removesLine_actual (o : Opts) (ms : List Bits) (hlen : ms.length ≤ U32MAX) (n : Nat)
+/-- line dimension: removed iff own marker or own region -/
+theorem removesLine_iff (o : Opts) (ms : List Bits) (hlen : ms.length ≤ U32MAX) (n : Nat)
     (h1 : 1 ≤ n) (h2 : n ≤ ms.length) :
-    removesLine (create o true ms) n ↔
-      inLineRegion o ms n ∨ (lineMarker o ms n ∧ ¬ inBrRegion o ms n) := by
+    removesLine (create o true ms) n ↔ lineMarker o ms n ∨ inLineRegion o ms n := by
   rw [removesLine_create o ms hlen, kindOf_in o ms n h1 h2, classify_line_iff,
-    flags_ignore_iff o ms n h2, ← flags_ignoreBr_iff o ms n h2]
+    flags_ignore_iff o ms n h2]
   unfold lineMarker
   rw [Marks_in _ _ ms n h1 h2]
-  simp
 
-/-- the behaviour of the code, branch dimension -/
-theorem removesBranch_actual (o : Opts) (ms : List Bits) (hlen : ms.length ≤ U32MAX) (n : Nat)
+/-- branch dimension: removed iff own marker or own region -/
+theorem removesBranch_iff (o : Opts) (ms : List Bits) (hlen : ms.length ≤ U32MAX) (n : Nat)
     (h1 : 1 ≤ n) (h2 : n ≤ ms.length) :
-    removesBranch (create o true ms) n ↔
-      inBrRegion o ms n ∨ (brMarker o ms n ∧ ¬ inLineRegion o ms n) := by
+    removesBranch (create o true ms) n ↔ brMarker o ms n ∨ inBrRegion o ms n := by
   rw [removesBranch_create o ms hlen, kindOf_in o ms n h1 h2, classify_branch_iff,
-    flags_ignoreBr_iff o ms n h2, ← flags_ignore_iff o ms n h2]
+    flags_ignoreBr_iff o ms n h2]
   unfold brMarker
   rw [Marks_in _ _ ms n h1 h2]
-  simp
+
+theorem mem_both_iff (o : Opts) (ms : List Bits) (hlen : ms.length ≤ U32MAX) (n : Nat) :
+    FT.both n ∈ create o true ms ↔
+      removesLine (create o true ms) n ∧ removesBranch (create o true ms) n := by
+  rw [removesLine_create o ms hlen, removesBranch_create o ms hlen, mem_create o ms hlen]
+  simp only [FT.num]
+  cases kindOf o ms n <;> simp
+
+theorem mem_line_iff (o : Opts) (ms : List Bits) (hlen : ms.length ≤ U32MAX) (n : Nat) :
+    FT.line n ∈ create o true ms ↔
+      removesLine (create o true ms) n ∧ ¬ removesBranch (create o true ms) n := by
+  rw [removesLine_create o ms hlen, removesBranch_create o ms hlen, mem_create o ms hlen]
+  simp only [FT.num]
+  cases kindOf o ms n <;> simp
+
+theorem mem_branch_iff (o : Opts) (ms : List Bits) (hlen : ms.length ≤ U32MAX) (n : Nat) :
+    FT.branch n ∈ create o true ms ↔
+      ¬ removesLine (create o true ms) n ∧ removesBranch (create o true ms) n := by
+  rw [removesLine_create o ms hlen, removesBranch_create o ms hlen, mem_create o ms hlen]
+  simp only [FT.num]
+  cases kindOf o ms n <;> simp
+
+theorem four_outcomes (o : Opts) (ms : List Bits) (hlen : ms.length ≤ U32MAX) (n : Nat)
+    (h1 : 1 ≤ n) (h2 : n ≤ ms.length) :
+    (FT.both n ∈ create o true ms ↔
+      (lineMarker o ms n ∨ inLineRegion o ms n) ∧ (brMarker o ms n ∨ inBrRegion o ms n)) ∧
+    (FT.line n ∈ create o true ms ↔
+      (lineMarker o ms n ∨ inLineRegion o ms n) ∧ ¬ (brMarker o ms n ∨ inBrRegion o ms n)) ∧
+    (FT.branch n ∈ create o true ms ↔
+      ¬ (lineMarker o ms n ∨ inLineRegion o ms n) ∧ (brMarker o ms n ∨ inBrRegion o ms n)) := by
+  rw [mem_both_iff o ms hlen, mem_line_iff o ms hlen, mem_branch_iff o ms hlen,
+    removesLine_iff o ms hlen n h1 h2, removesBranch_iff o ms hlen n h1 h2]
+  exact ⟨Iff.rfl, Iff.rfl, Iff.rfl⟩
 
 theorem removes_range (o : Opts) (ms : List Bits) (hlen : ms.length ≤ U32MAX) (r : Bool) (n : Nat)
     (h : removesLine (create o r ms) n ∨ removesBranch (create o r ms) n) :
